@@ -94,8 +94,14 @@ func (s *sim) nextSync(rng *simcore.RNG) simcore.Op {
 			n.mu.Lock()
 			starting := n.starting
 			n.mu.Unlock()
-			if !starting {
+			if !starting && n.startFails < 3 {
 				return simcore.Op{"a": "restart", "node": n.idx}
+			}
+			if !starting {
+				// it fails at every start (reported as consensus-failure / restart-failed where the
+				// property is about that): the run ends instead of restarting it for ever
+				s.env.Count("probe.node_given_up_after_failed_starts")
+				return nil
 			}
 		}
 	}
